@@ -3,6 +3,8 @@ package main
 import (
 	"fmt"
 	"go/token"
+	"go/types"
+	"sort"
 	"strings"
 
 	"golang.org/x/tools/go/ssa"
@@ -532,7 +534,147 @@ func checkC09(c *Ctx, r *Report) {
 	if f := r6.need(mab("gc")); f != nil {
 		pops := findInstrs(f, callPred(pa("PopIfExpired")))
 		md := findInstrs(f, callPred(mab("maybeDeleteSignedPeerRecordUnlocked")))
-		r6.Check(len(pops) == 1 && len(md) == 1, mab("gc")+": pops expired entries and drops orphaned signed records", f.Pos(), 2, "", "", "")
+		// the sweep ends only when PopIfExpired reports nothing left, and every entry it hands out has its peer's signed
+		// record re-examined before the next one is popped
+		popOK1 := isCallResult(1, pa("PopIfExpired"))
+		popOK := func(v ssa.Value) bool { // the answer of a pop, or of whichever pop ran last (3-clause loop)
+			ls := phiLeaves(v)
+			if len(ls) == 0 {
+				return false
+			}
+			for _, l := range ls {
+				if !popOK1(l) {
+					return false
+				}
+			}
+			return true
+		}
+		w1, n1 := (&Cut{Fn: f, Target: func(in ssa.Instruction) bool { _, ok := in.(*ssa.Return); return ok }, EdgeCut: edgeBool(popOK, false)}).Run(c)
+		var got []CFGEdge
+		for _, b := range blocksDeep(f) {
+			for s := range b.Succs {
+				if edgeBool(popOK, true)(b, s) {
+					got = append(got, CFGEdge{b, s})
+				}
+			}
+		}
+		w2, n2 := "no branch on PopIfExpired's answer", 0
+		if len(got) > 0 {
+			w2, n2 = (&Cut{Fn: f, FromEdges: got, Sep: inSet(md), Target: func(in ssa.Instruction) bool {
+				if _, isRet := in.(*ssa.Return); isRet {
+					return true
+				}
+				return inSet(pops)(in)
+			}}).Run(c)
+		}
+		r6.Check(len(pops) >= 1 && len(md) >= 1 && w1 == "" && w2 == "", mab("gc")+": pops expired entries and drops orphaned signed records", f.Pos(), n1+n2+2, "", "expired addresses (or the signed record of a peer whose last address expired) are left behind", w1+w2)
+	}
+
+	// the datastore record is kept ordered by expiry: hasExpiredAddrs, removeExpired and the lookahead GC only look at
+	// the head. Whatever sorts the address list in the package orders it by the Expiry field, ascending.
+	{
+		nSorts := 0
+		for _, f := range c.FnsOfPkg(dsP) {
+			allInstrs(f, func(in ssa.Instruction) {
+				call, ok := in.(*ssa.Call)
+				if !ok {
+					return
+				}
+				k := calleeKey(call)
+				isLess := k == "sort.Slice" || k == "sort.SliceStable"
+				isCmp := strings.HasPrefix(k, "slices.SortFunc") || strings.HasPrefix(k, "slices.SortStableFunc")
+				if !isLess && !isCmp {
+					return
+				}
+				if !strings.Contains(types.TypeString(call.Call.Args[0].Type(), nil), "AddrBookRecord_AddrEntry") && !derivesFrom(call.Call.Args[0], func(v ssa.Value) bool {
+					fl, _ := loadOfField(v)
+					return fl != nil && fl.Name() == "Addrs"
+				}) {
+					return
+				}
+				nSorts++
+				key := fnKey(f) + ": the address list is sorted by Expiry, ascending"
+				var g *ssa.Function
+				switch x := strip2(call.Call.Args[1]).(type) {
+				case *ssa.MakeClosure:
+					g, _ = x.Fn.(*ssa.Function)
+				case *ssa.Function:
+					g = x
+				}
+				if g == nil || g.Blocks == nil {
+					r6.Fail(key, instrPos(in), "the comparator could not be resolved to a function", "")
+					return
+				}
+				// the fields of an address entry the comparator reads, and from which parameter's element
+				fields := map[string]bool{}
+				side := func(v ssa.Value) int { // 1: first parameter's element, 2: second's, 0: unknown
+					for d := 0; d < 6 && v != nil; d++ {
+						switch x := v.(type) {
+						case *ssa.Parameter:
+							for i, p := range g.Params {
+								if p == x {
+									return i + 1
+								}
+							}
+							return 0
+						case *ssa.UnOp:
+							v = x.X
+						case *ssa.FieldAddr:
+							v = x.X
+						case *ssa.IndexAddr:
+							v = x.Index
+						case *ssa.Index:
+							v = x.Index
+						default:
+							return 0
+						}
+					}
+					return 0
+				}
+				var first, second ssa.Value
+				allInstrs(g, func(x ssa.Instruction) {
+					v, ok := x.(ssa.Value)
+					if !ok {
+						return
+					}
+					fl, base := loadOfField(v)
+					if fl == nil || !strings.Contains(types.TypeString(base.Type(), nil), "AddrBookRecord_AddrEntry") {
+						return
+					}
+					fields[fl.Name()] = true
+					switch side(base) {
+					case 1:
+						first = v
+					case 2:
+						second = v
+					}
+				})
+				onlyExpiry := len(fields) == 1 && fields["Expiry"]
+				asc := false
+				if onlyExpiry && first != nil && second != nil {
+					isA := func(v ssa.Value) bool { return v == first }
+					isB := func(v ssa.Value) bool { return v == second }
+					if isLess {
+						tab, ok := orderTable(g, isA, isB, 0)
+						asc = ok && tab == [3]int{2, 1, 1}
+					} else {
+						// cmp.Compare(a.Expiry, b.Expiry), or a three-way result whose sign follows the order
+						for _, ret := range returnsOf(g) {
+							if cc, isC := strip(ret.Results[0]).(*ssa.Call); isC && calleeKey(cc) == "cmp.Compare" && len(cc.Call.Args) == 2 {
+								asc = cc.Call.Args[0] == first && cc.Call.Args[1] == second
+							}
+						}
+					}
+				}
+				var fl []string
+				for n := range fields {
+					fl = append(fl, n)
+				}
+				sort.Strings(fl)
+				r6.Check(onlyExpiry && asc, key, instrPos(in), 2, "", "the head of the list is no longer the entry that expires first: expired addresses behind it are returned, survive GC and a restart", "compares "+strings.Join(fl, ",")+fmt.Sprintf(" ascending=%v", asc))
+			})
+		}
+		r6.Check(nSorts >= 1, dsP+": sort of the address list", token.NoPos, nSorts, "", "", "")
 	}
 
 	// ---- R7 ---------------------------------------------------------------
@@ -598,7 +740,7 @@ func checkC09(c *Ctx, r *Report) {
 	// a stored signed record is re-examined afterwards: every insert into signedPeerRecords is followed, before the
 	// function returns, by maybeDeleteSignedPeerRecordUnlocked (called, deferred, or run by a callee on all its paths)
 	for _, f := range c.FnsOfPkg(memP) {
-		ins := findInstrs(f, func(in ssa.Instruction) bool {
+		ins := findInstrsIn(f, func(in ssa.Instruction) bool {
 			_, ok := in.(*ssa.MapUpdate)
 			return ok && isFieldWrite(in, mabT+".signedPeerRecords")
 		})
@@ -607,7 +749,7 @@ func checkC09(c *Ctx, r *Report) {
 			w, n := (&Cut{Fn: f, From: []ssa.Instruction{i}, Target: isRet, Sep: func(in ssa.Instruction) bool { return releasesLike(in, mdName) }}).Run(c)
 			// or a deferral registered on every path before the insert
 			if w != "" {
-				defs := findInstrs(f, func(in ssa.Instruction) bool { _, isD := in.(*ssa.Defer); return isD && calleeNameIs(in, mdName) })
+				defs := findInstrsIn(f, func(in ssa.Instruction) bool { _, isD := in.(*ssa.Defer); return isD && calleeNameIs(in, mdName) })
 				if len(defs) > 0 {
 					if w2, _ := (&Cut{Fn: f, Target: isInstr(i), Sep: inSet(defs)}).Run(c); w2 == "" {
 						w = ""
@@ -648,7 +790,7 @@ func checkC09(c *Ctx, r *Report) {
 	r8 := r.Rule("C09-R8", "E6", 5, "pstoreds: every address list handed to setAddrs/deleteAddrs was normalised by cleanAddrs (or comes from the stored record); pstoremem strips the /p2p suffix in every mutator")
 	cleanK := dsP + ".cleanAddrs"
 	for _, f := range c.FnsOfPkg(dsP) {
-		for _, call := range callsIn(f, "(*"+dsP+".dsAddrBook).setAddrs", "(*"+dsP+".dsAddrBook).deleteAddrs") {
+		for _, call := range callsInOnly(f, "(*"+dsP+".dsAddrBook).setAddrs", "(*"+dsP+".dsAddrBook).deleteAddrs") {
 			a := callArgs(call)[2]
 			ok := derivesFrom(a, isCallResult(0, cleanK)) || isResultOfCall(a, 0, "(*"+dsP+".dsAddrBook).supersededSignedAddrs") != nil
 			// the cleanAddrs result must be the only definition reaching the call (not the raw parameter)
